@@ -39,6 +39,10 @@ def mono_gcd(m1, m2):
     return tuple((v, min(e, d2[v])) for v, e in m1 if v in d2)
 
 
+class NormalFormLimit(Exception):
+    """engine limit (never a library exception)"""
+
+
 class Poly:
     __slots__ = ('t', '_h')
 
@@ -284,7 +288,7 @@ class RuleSet:
             q, repl = f
             n += 1
             if n > limit:
-                raise RuntimeError('normal form did not converge')
+                raise NormalFormLimit('normal form did not converge within %d rewrite steps' % limit)
             for m2, c2 in repl.t.items():
                 mm = mono_mul(q, m2)
                 tgt = work
